@@ -216,6 +216,7 @@ func gExec(cs *gCase) *gRun {
 		for len(run.Frames) < want {
 			f, err := srv.Recv(deadline)
 			if err != nil {
+				gDeadlineHits.Add(1)
 				return fmt.Errorf("reply %d of %d did not arrive: %v", len(run.Frames)+1, n, err)
 			}
 			run.Frames = append(run.Frames, f)
@@ -230,7 +231,7 @@ func gExec(cs *gCase) *gRun {
 			if err := srv.Send(frames[i]); err != nil {
 				return fault("input/send-failed/"+p.Server, err.Error(), i)
 			}
-			if err := recvUpTo(i+1, gDeadline); err != nil {
+			if err := recvUpTo(i+1, gDeadlineNow()); err != nil {
 				return fault("count/missing-response/"+p.Server, err.Error(), i)
 			}
 		}
@@ -250,7 +251,7 @@ func gExec(cs *gCase) *gRun {
 		}
 		for step := 0; ; step++ {
 			st := sim.started()
-			if err := hub.waitBlocked(keysOf(st), gDeadline); err != nil {
+			if err := hub.waitBlocked(keysOf(st), gDeadlineNow()); err != nil {
 				return fault("schedule/blocked-set-differs/"+p.Server, fmt.Sprintf("before opening gate number %d: %v", step, err), step)
 			}
 			// calls that are never held (Close) and that the pipeline has let run by now must have returned before
@@ -261,7 +262,7 @@ func gExec(cs *gCase) *gRun {
 					closes = append(closes, k)
 				}
 			}
-			if err := hub.wait(gDeadline, func() (bool, error) {
+			if err := hub.wait(gDeadlineNow(), func() (bool, error) {
 				for _, k := range closes {
 					cs := hub.byKey[k]
 					if len(cs) == 0 || cs[len(cs)-1].Fin == 0 {
@@ -285,7 +286,7 @@ func gExec(cs *gCase) *gRun {
 					}
 				}
 			}
-			if err := recvUpTo(len(sim.sent), gDeadline); err != nil {
+			if err := recvUpTo(len(sim.sent), gDeadlineNow()); err != nil {
 				return fault("count/missing-response/"+p.Server, fmt.Sprintf("with %d gates opened the first %d replies are due: %v", step, len(sim.sent), err), step)
 			}
 			if step >= len(cs.Order) {
@@ -298,7 +299,7 @@ func gExec(cs *gCase) *gRun {
 			if i < 0 || i >= n || !sim.isStarted(i) {
 				return fault("harness/order-infeasible", fmt.Sprintf("request %d cannot return at step %d (running: %v)", i, step, st), step)
 			}
-			if err := hub.release(reqs[i].Gate, gDeadline); err != nil {
+			if err := hub.release(reqs[i].Gate, gDeadlineNow()); err != nil {
 				return fault("schedule/held-call-did-not-return/"+p.Server, err.Error(), step)
 			}
 			gatesOpened++
@@ -310,7 +311,7 @@ func gExec(cs *gCase) *gRun {
 			sim.finish(i)
 		}
 	}
-	if err := recvUpTo(n, gDeadline); err != nil {
+	if err := recvUpTo(n, gDeadlineNow()); err != nil {
 		return fault("count/missing-response/"+p.Server, err.Error(), len(cs.Order))
 	}
 	select {
